@@ -84,7 +84,16 @@ func (s *syncTransport) RoundTrip(req *http.Request) (*http.Response, error) {
 var (
 	httpMu        sync.Mutex
 	httpListeners = map[*http.Server][]net.Listener{}
+	httpClosed    = map[*http.Server]bool{} // Close came before Serve (net/http: Serve then returns ErrServerClosed at once)
 )
+
+// resetHTTP forgets the servers of earlier runs.
+func resetHTTP() {
+	httpMu.Lock()
+	httpListeners = map[*http.Server][]net.Listener{}
+	httpClosed = map[*http.Server]bool{}
+	httpMu.Unlock()
+}
 
 // HTTPServe is (*http.Server).Serve with one sim task per connection: read one request, run the
 // server's handler, write the response, close.
@@ -93,6 +102,11 @@ func HTTPServe(srv *http.Server, l net.Listener) error {
 		return srv.Serve(l)
 	}
 	httpMu.Lock()
+	if httpClosed[srv] {
+		httpMu.Unlock()
+		l.Close()
+		return http.ErrServerClosed
+	}
 	httpListeners[srv] = append(httpListeners[srv], l)
 	httpMu.Unlock()
 	for {
@@ -109,6 +123,9 @@ func HTTPClose(srv *http.Server) error {
 	httpMu.Lock()
 	ls := httpListeners[srv]
 	delete(httpListeners, srv)
+	if cur.Load() != nil {
+		httpClosed[srv] = true
+	}
 	httpMu.Unlock()
 	if ls == nil {
 		return srv.Close()
